@@ -407,7 +407,7 @@ def spectral(run, rng, T):
     import qibo.quantum_info as qi
     reps = 6 if run.tier == "quick" else 30
     for it in range(reps):
-        n = rng.randint(1, 3)
+        n = it % 3 + 1          # every size 1, 2, 3 in every tier (dimension factors differ only from n = 3 on)
         d = 2 ** n
         seed = rng.randrange(10 ** 6)
         rho = qi.random_density_matrix(d, seed=seed)
@@ -493,16 +493,89 @@ def spectral(run, rng, T):
     T.check("relative_renyi_entropy:different_pure_states", got is not None and close(got, want, 1e-6),
             f"relative_renyi_entropy(|0>, |+>, alpha=1/2) = {got}, definition -2 log2 tr(rho^1/2 sigma^1/2) = {want}: both-pure shortcut returns 0.0",
             {"state": [1, 0], "target": "|+>", "alpha": 0.5})
-    # average gate fidelity of the depolarising channel against its closed form 1 - p/2 (single qubit)
-    for pdep in (0.25, 0.5):
-        L = np.diag([1, 1 - pdep, 1 - pdep, 1 - pdep]).astype(complex)   # Pauli-Liouville, trace equals the Liouville trace
-        Lc = qi.pauli_to_liouville(L, normalize=True)
-        T.check("process_fidelity:depolarizing", close(qi.process_fidelity(Lc.copy()), 1 - 3 * pdep / 4, 1e-9), f"p={pdep}")
-        got = qi.average_gate_fidelity(Lc.copy())
-        T.check("average_gate_fidelity:depolarizing", close(got, 1 - pdep / 2, 1e-9),
-                f"average_gate_fidelity of the single-qubit depolarising channel rho -> (1-p) rho + p I/2, p={pdep}, is {got}; "
-                f"the average of <psi|E(psi)|psi> over pure states is 1 - p/2 = {1 - pdep / 2}: the code uses d = channel.shape[0] = 4 (the "
-                "superoperator dimension) in (d F_pro + 1)/(d + 1) instead of the Hilbert-space dimension 2", {"p": pdep})
+
+
+def dimension_probes(run, rng, T):
+    """every function with a dimension-dependent factor is exercised at n = 1, 2 AND 3 (d = 8: 2^n != 2n, 4^n != n^2,
+    d != d^2/2 ...) against closed forms ('test', tolerances)"""
+    import qibo.quantum_info as qi
+    from qibo import gates
+    for n in (1, 2, 3):
+        d = 2 ** n
+        for pdep in (0.25, 0.5):
+            # n-qubit depolarising channel rho -> (1-p) rho + p tr(rho) I/d, Liouville matrix in row order
+            vi = np.eye(d).reshape(-1)
+            L = ((1 - pdep) * np.eye(d * d) + (pdep / d) * np.outer(vi, vi)).astype(complex)
+            fpro = (1 + (d * d - 1) * (1 - pdep)) / d ** 2
+            favg = 1 - pdep + pdep / d
+            T.check("process_fidelity:depolarizing", close(qi.process_fidelity(L.copy()), fpro, 1e-9), f"n={n} p={pdep}: {qi.process_fidelity(L.copy())} vs {fpro}")
+            T.check("process_fidelity:depolarizing", close(qi.process_fidelity(L.copy(), np.eye(d * d, dtype=complex)), fpro, 1e-9), f"with explicit identity target, n={n}")
+            T.check("process_infidelity:depolarizing", close(qi.process_infidelity(L.copy()), 1 - fpro, 1e-9), f"n={n} p={pdep}")
+            got = qi.average_gate_fidelity(L.copy())
+            T.check("average_gate_fidelity:depolarizing", close(got, favg, 1e-9),
+                    f"average_gate_fidelity of the {n}-qubit depolarising channel rho -> (1-p) rho + p I/d, p={pdep}, is {got}; "
+                    f"the average of <psi|E(psi)|psi> over pure states is 1 - p + p/d = {favg} (d = 2^n must enter (d F_pro + 1)/(d + 1))",
+                    {"n": n, "p": pdep})
+            T.check("gate_error:depolarizing", close(qi.gate_error(L.copy()), 1 - favg, 1e-9), f"n={n} p={pdep}")
+            ch = gates.DepolarizingChannel(tuple(range(n)), pdep)
+            T.check("entanglement_fidelity:depolarizing", close(T.guard("entanglement_fidelity", lambda: qi.entanglement_fidelity(ch, n)), favg, 1e-9),
+                    f"entanglement_fidelity(DepolarizingChannel on {n} qubits, p={pdep}) on |+>^n should be 1 - p + p/d = {favg}", {"n": n, "p": pdep})
+        mm = np.eye(d, dtype=complex) / d
+        T.check("purity:maximally_mixed", close(qi.purity(mm.copy()), 1 / d, 1e-12), f"purity(I/d) = 1/d, n={n}")
+        T.check("impurity:maximally_mixed", close(qi.impurity(mm.copy()), 1 - 1 / d, 1e-12), f"impurity(I/d) = 1 - 1/d, n={n}")
+        T.check("von_neumann_entropy:maximally_mixed", close(qi.von_neumann_entropy(mm.copy()), n, 1e-9), f"S(I/d) = n bits, n={n}")
+        T.check("renyi_entropy:maximally_mixed", close(qi.renyi_entropy(mm.copy(), 2), n, 1e-9), f"H_2(I/d) = n bits, n={n}")
+        T.check("renyi_entropy:alpha=0", close(qi.renyi_entropy(mm.copy(), 0), n, 1e-9), f"H_0(I/d) = log2 d = n, n={n}")
+        T.check("renyi_entropy:alpha=inf", close(qi.renyi_entropy(mm.copy(), np.inf), n, 1e-9), f"H_inf(I/d) = n, n={n}")
+        T.check("tsallis_entropy:maximally_mixed", close(qi.tsallis_entropy(mm.copy(), 2), 1 - 1 / d, 1e-9), f"S_2(I/d) = 1 - 1/d, n={n}")
+        T.check("hilbert_schmidt_distance:maximally_mixed", close(qi.hilbert_schmidt_distance(mm.copy(), np.diag([1.0] + [0.0] * (d - 1)).astype(complex)), 1 - 1 / d, 1e-12), f"n={n}")
+        T.check("trace_distance:maximally_mixed", close(qi.trace_distance(mm.copy(), np.diag([1.0] + [0.0] * (d - 1)).astype(complex)), 1 - 1 / d, 1e-9), f"n={n}")
+        T.check("fidelity:maximally_mixed", close(qi.fidelity(mm.copy(), (np.diag(list(range(1, d + 1))) / (d * (d + 1) / 2)).astype(complex)),
+                (sum(math.sqrt(k / (d * (d + 1) / 2) / d) for k in range(1, d + 1))) ** 2, 1e-7), f"F(I/d, diag) = (sum sqrt(q_k/d))^2, n={n}")
+        # Haar integral: trace one, first moment I/d, second moment = projector on the symmetric subspace / dim
+        T.check("haar_integral:first_moment", np.allclose(qi.haar_integral(n, 1), np.eye(d) / d, atol=1e-12), f"n={n}")
+        h2 = qi.haar_integral(n, 2)
+        swap = np.eye(d * d).reshape(d, d, d, d).transpose(1, 0, 2, 3).reshape(d * d, d * d)
+        T.check("haar_integral:second_moment", np.allclose(h2, (np.eye(d * d) + swap) / (d * (d + 1)), atol=1e-12) and close(np.trace(h2), 1.0, 1e-12), f"n={n}")
+        # Hadamard transform: both implementations agree with H^{(x)n} v / 2^{n/2} (qibo's convention divides by 2^n in total)
+        v = np.array([rng.randint(-4, 4) for _ in range(d)], dtype=float)
+        Hn = np.array([[1.0]])
+        for _ in range(n):
+            Hn = np.kron(Hn, np.array([[1, 1], [1, -1]]))
+        T.check("hadamard_transform", np.allclose(qi.hadamard_transform(v.copy(), "fast"), qi.hadamard_transform(v.copy(), "regular"), atol=1e-12)
+                and np.allclose(qi.hadamard_transform(v.copy(), "fast"), Hn @ v / d, atol=1e-12), f"fast == regular == H^n v / 2^n, n={n}")
+        if n >= 2:
+            ghz = np.zeros(d, dtype=complex)
+            ghz[0] = ghz[-1] = 1 / math.sqrt(2)
+            prod = np.ones(d, dtype=complex) / math.sqrt(d)
+            T.check("meyer_wallach_entanglement:ghz", close(qi.meyer_wallach_entanglement(ghz.copy()), 1.0, 1e-9), f"Q(GHZ_{n}) = 1")
+            T.check("meyer_wallach_entanglement:product", close(qi.meyer_wallach_entanglement(prod.copy()), 0.0, 1e-9), f"Q(|+>^{n}) = 0")
+            T.check("concurrence:ghz", close(qi.concurrence(ghz.copy(), [0]), 1.0, 1e-7), f"C(GHZ_{n}, [0]) = 1")
+            T.check("entanglement_of_formation:ghz", close(qi.entanglement_of_formation(ghz.copy(), [0]), 1.0, 1e-6), f"EoF(GHZ_{n}, [0]) = 1")
+            T.check("negativity:ghz", close(qi.negativity(ghz.copy(), [0]), 0.5, 1e-6), f"N(GHZ_{n}, [0]) = 1/2")
+            T.check("entanglement_entropy:ghz", close(qi.entanglement_entropy(ghz.copy(), list(range(n - 1))), 1.0, 1e-7), f"S_A(GHZ_{n}) = 1 bit")
+            T.check("mutual_information:ghz", close(qi.mutual_information(np.outer(ghz, ghz.conj()), [0]), 2.0, 1e-6), f"I(GHZ_{n}) = 2")
+        if n == 3:
+            w = np.zeros(d, dtype=complex)
+            w[[1, 2, 4]] = 1 / math.sqrt(3)
+            T.check("meyer_wallach_entanglement:w", close(qi.meyer_wallach_entanglement(w.copy()), 8 / 9, 1e-9), "Q(W_3) = 8/9")
+        # random_pauli_hamiltonian: the coefficients returned describe a Hamiltonian with the eigenvalues returned
+        P = qi.pauli_basis(n)
+        for nz in (False, True):
+            if nz and n == 1:
+                continue
+            kw = dict(max_eigenvalue=3.0, normalize=True) if nz else {}
+            out = T.guard("random_pauli_hamiltonian", lambda: qi.random_pauli_hamiltonian(n, seed=5, **kw))
+            if out is None:
+                continue
+            coeff, eigs = out
+            H = sum(c * p for c, p in zip(coeff, P)) / math.sqrt(d)
+            ev = np.linalg.eigvalsh(H)
+            T.check(f"random_pauli_hamiltonian:normalize={nz}:spectrum", np.allclose(ev, np.sort(np.real(eigs)), atol=1e-8),
+                    f"random_pauli_hamiltonian(n={n}, normalize={nz}{', max_eigenvalue=3' if nz else ''}, seed=5): the Hamiltonian returned has eigenvalues "
+                    f"{np.round(ev, 4).tolist()} but the eigenvalues returned with it are {np.round(np.real(eigs), 4).tolist()}"
+                    + (" (gap 1 and largest eigenvalue 3 were promised): the eigenVECTORS are rescaled together with the eigenvalues" if nz else ""),
+                    {"n": n, "normalize": nz})
 
 
 def generators(run, rng, T):
@@ -510,7 +583,7 @@ def generators(run, rng, T):
     seeds = [0, 1, 7] if run.tier == "quick" else list(range(12))
     herm = lambda M: np.allclose(M, M.conj().T, atol=1e-10)  # noqa: E731
     for seed in seeds:
-        for d in (2, 4) if run.tier == "quick" else (2, 4, 8):
+        for d in ((2, 4, 8) if (run.tier != "quick" or seed == seeds[0]) else (2, 4)):
             n = int(math.log2(d))
             for measure in (None, "haar"):
                 U = T.guard("random_unitary", lambda: qi.random_unitary(d, measure, seed=seed))
@@ -732,6 +805,7 @@ def main(run):
     T = Tests(run)
     formulas(run, rng, T)
     spectral(run, rng, T)
+    dimension_probes(run, rng, T)
     generators(run, rng, T)
     seen, uniq = set(), []
     for f in run.findings:          # one finding per key (the first failing case is the replay)
@@ -766,6 +840,7 @@ def replay(run, data):
         T = Tests(run)
         formulas(run, rng, T)
         spectral(run, rng, T)
+        dimension_probes(run, rng, T)
         generators(run, rng, T)
     run.findings = [f for f in run.findings if f.key == key][:1]
     return run.finish(rule="replay of one recorded finding (the generating section is re-executed with the recorded seed)")
